@@ -43,9 +43,26 @@ def with_layout(a, layout):
     raise ValueError(layout)
 
 
-def grid_from_mesh(m, width=None, extra=None, layout="C"):
-    """Grid via the explicit-topology constructor with standard-form inputs (fresh arrays)."""
+def mesh_f32(m):
+    """The mesh whose node positions are those that single-precision lon/lat values (degrees) denote."""
+    from . import gen, ref
+
     lon, lat = m.lonlat()
+    lon32, lat32 = np.asarray(lon, dtype=np.float32).astype(float), np.asarray(lat, dtype=np.float32).astype(float)
+    out = gen.Mesh(ref.lonlat_to_xyz(lon32, lat32), m.faces, dict(m.desc, float32=True), m.closed)
+    out.lonlat32 = (np.asarray(lon, dtype=np.float32), np.asarray(lat, dtype=np.float32))
+    return out
+
+
+def grid_from_mesh(m, width=None, extra=None, layout="C"):
+    """Grid via the explicit-topology constructor with standard-form inputs (fresh arrays).  A mesh made by mesh_f32 hands over
+    its float32 coordinate arrays."""
+    if getattr(m, "lonlat32", None) is not None:
+        lon, lat = (np.array(a) for a in m.lonlat32)
+    else:
+        lon, lat = m.lonlat()
+    if __import__("os").environ.get("UXMON_F32_EXPERIMENT") and getattr(m, "lonlat32", None) is None:
+        lon, lat = np.asarray(lon, dtype=np.float32), np.asarray(lat, dtype=np.float32)
     conn = with_layout(m.padded(width=width), layout)
     kw = {k: with_layout(v, layout) for k, v in dict(extra or {}).items()}
     return ux().Grid.from_topology(
